@@ -78,13 +78,15 @@ class Baton:
             self.to_main.release()
 
 
-def run_session(pcfg, save_filename, save_config, load, schedule, events, limit=None):
+def run_session(pcfg, save_filename, save_config, load, schedule, events, limit=None, past_time=None):
     """runs the real CrackingSession.run under the baton; returns dict(out, ended, consumed)"""
     common.use_impl()
     import lib_guesser.cracking_session as cs
     import lib_guesser.priority_queue as pqmod
     baton = Baton(schedule, events)
     session = cs.CrackingSession(pcfg, save_config, save_filename)
+    if past_time is not None:
+        session.report.past_guessing_time = past_time      # as restored from a save file of a long-running session
     pcfg.save_file = save_filename
     pcfg.should_exit = False
     pcfg.omen_exit = False
@@ -127,8 +129,9 @@ def run_session(pcfg, save_filename, save_config, load, schedule, events, limit=
     builtins.input = baton.fake_input
     ended = None
     err = io.StringIO()
+    stdout_extra = io.StringIO()        # guesses go through print_wrapper; anything else that reaches stdout lands here
     try:
-        with contextlib.redirect_stderr(err):
+        with contextlib.redirect_stderr(err), contextlib.redirect_stdout(stdout_extra):
             try:
                 session.run(load_session=load, limit=limit)
                 ended = 'returned'
@@ -147,7 +150,8 @@ def run_session(pcfg, save_filename, save_config, load, schedule, events, limit=
     state = 'stopped'
     if ended == 'returned':
         state = 'exited' if 'Saving Session Info' in log else 'finished'
-    return {'out': baton.out, 'state': state, 'consumed': ''.join(baton.consumed), 'should_exit': bool(pcfg.should_exit), 'log': log}
+    return {'out': baton.out, 'state': state, 'consumed': ''.join(baton.consumed), 'should_exit': bool(pcfg.should_exit), 'log': log,
+            'stdout_extra': stdout_extra.getvalue()}
 
 
 def units_of(pcfg):
